@@ -222,7 +222,9 @@ def rule_frame_configs(ctx: Ctx) -> None:
             if (k, v) in seen:
                 continue
             seen.add((k, v))
-            ctx.check(v in ("[]", f"set_thresholds({k},len(target_labels),True)"), "C15-normalised", "_MetricsConfigBase.__init__", f"{k}:{'empty' if v == '[]' else 'set'}",
+            forms = {f"set_thresholds({k},len(target_labels),True)", f"set_thresholds({k},len(target_labels),nest=True)", f"set_thresholds({k},target_objects_num=len(target_labels),nest=True)",
+                     f"set_thresholds(thresholds={k},target_objects_num=len(target_labels),nest=True)"}  # the same three arguments, positional or by keyword
+            ctx.check(v == "[]" or v in forms, "C15-normalised", "_MetricsConfigBase.__init__", f"{k}:{'empty' if v == '[]' else 'set'}",
                       f"self.{k} = `{v[:100]}`; metric thresholds must be set_thresholds(value, len(target_labels), True) (or [] when absent)", fi=fm)
 
 
